@@ -987,10 +987,11 @@ Definition put_outcome (o : outcome) : list N :=
   | OIgnored => [3]
   end.
 
-(* the ledger as the harness can measure it: #conns #sessions #readers #active mcount #rtp #rtcp *)
+(* the ledger as the harness can measure it: #conns #sessions #readers #active mcount #rtp #rtcp
+   multicast-writers-allocated *)
 Definition put_ledger (s : server) : list N :=
   [nlen (v_conns s); nlen (v_sess s); nlen (v_readers s); nlen (v_active s); v_mcount s;
-   nlen (v_rtp s); nlen (v_rtcp s)].
+   nlen (v_rtp s); nlen (v_rtcp s); putb (v_mwriters s)].
 
 Fixpoint lookup_adv (c : N) (l : list (N * N)) : option N :=
   match l with [] => None | (k, v) :: t => if k =? c then Some v else lookup_adv c t end.
